@@ -1,7 +1,7 @@
 (* C20 -- executable model of frappy remote logging (RemoteLogHandler.handle / set_conn_level / check_level,
    Module.setRemoteLogging, Dispatcher.handle_logging / set_all_log_levels / reset_connection /
-   remove_connection) and of LogfileHandler.doRollover with retention (as repaired by 8755e5f, f977176).  No proofs in this file.
-   OFF, COMLOG and the slice used by doRollover come from the generated FV.Gen.C20. *)
+   remove_connection) and of LogfileHandler.doRollover with retention (as repaired by 8755e5f, f977176, deef1e5).  No proofs in this file.
+   OFF and COMLOG come from the generated FV.Gen.C20. *)
 From Coq Require Import List Arith ZArith Bool NArith.
 Import ListNotations.
 Require Import FV.Gen.C20.
@@ -222,33 +222,34 @@ Definition own_log (rootname : name) (e : entry) : bool :=
 (* files = sorted(entry.path for entry in it if <own_log>) *)
 Definition listing (rootname : name) (d : dir) : list entry := sort (filter (own_log rootname) d).
 
-Inductive slice_kind := SliceTail | SliceHead.
-(* SliceTail: files[-max_days:]     SliceHead: files[:-max_days]     (max_days > 0) *)
-Definition removal_slice (k : slice_kind) (n : nat) (files : list entry) : list entry :=
-  match k with
-  | SliceTail => skipn (length files - n) files
-  | SliceHead => firstn (length files - n) files
-  end.
+(* p < self.baseFilename on python strings *)
+Definition name_ltb (a b : name) : bool := negb (name_leb b a).
+
+(* earlier = [p for p in files if p < self.baseFilename] *)
+Definition earlier (fn : name) (files : list entry) : list entry :=
+  filter (fun e => name_ltb (e_name e) fn) files.
+
+(* earlier[:max(0, len(earlier) - (max_days - 1))]   (max_days > 0; subtraction on nat stops at 0) *)
+Definition victims (max_days : nat) (earl : list entry) : list entry :=
+  firstn (length earl - (max_days - 1)) earl.
 
 (* for filepath in ...: os.remove(filepath) -- every victim is a regular file *)
-Fixpoint remove_loop (d : dir) (victims : list entry) : dir :=
-  match victims with
+Fixpoint remove_loop (d : dir) (vs : list entry) : dir :=
+  match vs with
   | [] => d
   | v :: r => remove_loop (del_name (e_name v) d) r
   end.
 
-Definition do_rollover (k : slice_kind) (rootname : name) (max_days : nat) (d : dir) (date : name) : dir :=
-  let d1 := open_file d (log_name rootname date) in
+Definition do_rollover (rootname : name) (max_days : nat) (d : dir) (date : name) : dir :=
+  let fn := log_name rootname date in
+  let d1 := open_file d fn in
   match max_days with
   | 0 => d1
-  | S _ => remove_loop d1 (removal_slice k max_days (listing rootname d1))
+  | S _ => remove_loop d1 (victims max_days (earlier fn (listing rootname d1)))
   end.
 
-(* the slice found in the source (0: files[-max_days:], 1: files[:-max_days]) *)
-Definition source_slice : slice_kind := if Nat.eqb rollover_slice_code 1 then SliceHead else SliceTail.
-
-Fixpoint rollovers (k : slice_kind) (rootname : name) (max_days : nat) (d : dir) (dates : list name) : dir :=
+Fixpoint rollovers (rootname : name) (max_days : nat) (d : dir) (dates : list name) : dir :=
   match dates with
   | [] => d
-  | dt :: r => rollovers k rootname max_days (do_rollover k rootname max_days d dt) r
+  | dt :: r => rollovers rootname max_days (do_rollover rootname max_days d dt) r
   end.
